@@ -297,12 +297,31 @@ func RunSharedRT(seed int64, out io.Writer) {
 	sample()
 	for _, in := range insts {
 		if gen == 1 {
+			// Stop() from three goroutines at once (real time: a caller waiting on the phase mutex is fine here): each
+			// must return, none may panic, and the instance raises one shutdown event
 			r := in.r1
-			done := make(chan struct{})
-			go func() { defer func() { recover(); close(done) }(); r.Stop() }()
-			select {
-			case <-done:
-			case <-time.After(2 * time.Second):
+			src := in.lm.src()
+			done := make(chan struct{}, 3)
+			for k := 0; k < 3; k++ {
+				go func() {
+					defer func() {
+						if e := recover(); e != nil {
+							lg.Logf(src, "apipanic stop")
+						}
+						done <- struct{}{}
+					}()
+					r.Stop()
+					lg.Logf(src, "stopret")
+				}()
+			}
+			deadline := time.After(3 * time.Second)
+			for k := 0; k < 3; k++ {
+				select {
+				case <-done:
+				case <-deadline:
+					lg.Logf(src, "stophang")
+					k = 3
+				}
 			}
 		} else {
 			in.cancel()
